@@ -23,6 +23,9 @@ RULE = (
     "compared with the model. non-trivial = >=1 symbol deleted or refusal "
     "judged; distinct = (format, multiset of table memberships of deleted "
     "symbols, force pattern)."
+    " A third of the cases delete through a Pass run by PassManager; a"
+    " quarter of the modules contain no code block; version"
+    " definitions may inherit from another definition."
 )
 ASSUMPTIONS = [
     "base version definitions carry flags == VER_FLG_BASE exactly (as the repository's own test helper builds them)",
